@@ -509,6 +509,11 @@ class PCtx:
         n = self.nf(p)
         if n.is_zero():
             return True
+        # an unoriented hypothesis (kept raw) proves itself and its unit multiples
+        for f in self.raw:
+            fn_ = self.nf(f)
+            if n == fn_ or n == -fn_:
+                return True
         # R3: implied zero through a unit multiplier
         for u in self.units:
             if u.nterms() * n.nterms() > 20000:
@@ -519,7 +524,10 @@ class PCtx:
         if n.nterms() < 2000:
             c, facs = factor(n)
             if len(facs) > 1 or (facs and facs[0][1] > 1):
+                raws = [self.nf(rw) for rw in self.raw]
                 for f, _ in facs:
+                    if any(f == rw or f == -rw for rw in raws):
+                        return True
                     for u in [ONE] + self.units:
                         if self.nf(f * u).is_zero():
                             return True
